@@ -32,6 +32,7 @@ def gen_case(rng):
         h = rng.randint(0, n)
     c["opts"] = {"head": h, "tail": t, "sample": s, "random_state": rng.choice([0, 1, 7])}
     c["backend"] = "pandas"
+    frame_check(rng, c)
     return c
 
 
@@ -52,7 +53,32 @@ def gen_polars_case(rng):
         h = rng.randint(0, n)
     c["opts"] = {"head": h, "tail": t, "sample": rng.choice([None, None, None, 1]), "random_state": 0}
     c["backend"] = "polars"
+    frame_check(rng, c)
     return c
+
+
+def frame_check(rng, c):
+    """now and then a dataframe-level check (row-wise, or an aggregate) on a numeric column: it sees the selected rows only"""
+    num = [col for col in c["frame"]["cols"] if col["dtype"] in ("int64", "float64") and all(v != A.NULL for v in col["vals"])]
+    if num and rng.random() < 0.3:
+        col = rng.choice(num)
+        c["frameCheck"] = {"col": col["name"], "kind": rng.choice(["rowwise", "sum"]), "thr": rng.choice([0, 1, 2, 4])}
+
+
+def frame_checks_of(c, backend):
+    fc = c.get("frameCheck")
+    if not fc:
+        return {}
+    name, thr = fc["col"], fc["thr"]
+    if backend == "pandas":
+        import pandera as pa
+        fn = (lambda df: df[name] >= thr) if fc["kind"] == "rowwise" else (lambda df: bool(df[name].sum() < 3 * thr + 4))
+        return {"checks": [pa.Check(fn)]}
+    import polars as pl
+    import pandera.polars as pap
+    fn = (lambda d: d.lazyframe.select(pl.col(name) >= thr)) if fc["kind"] == "rowwise" else \
+        (lambda d: d.lazyframe.select(pl.col(name).sum() < 3 * thr + 4))
+    return {"checks": [pap.Check(fn)]}
 
 
 def sample_positions(n, k, r):
@@ -80,13 +106,16 @@ def run_pandas(rep, cases):
             rep.correspondence_break(c, "driver: " + a["error"])
             continue
         S, D, o = c["schema"], c["frame"], c["opts"]
-        schema = A.schema_of(S)
+        fck = frame_checks_of(c, "pandas")
+        if fck and not any(col["name"] == c["frameCheck"]["col"] for col in D["cols"]):
+            fck = {}
+        schema = A.schema_of(S, **fck)
         df = A.frame_of(D)
         kw = {k: v for k, v in o.items() if not (k == "random_state" and o["sample"] is None)}
         k1, out1 = pandas_verdict(schema, df.copy(), **kw)
-        k2, _ = pandas_verdict(A.schema_of(S), df.copy(), **kw)
-        kreq, _ = pandas_verdict(A.schema_of(S), df.iloc[a["requested"]].copy())
-        kkept, _ = pandas_verdict(A.schema_of(S), df.iloc[a["kept"]].copy())
+        k2, _ = pandas_verdict(A.schema_of(S, **fck), df.copy(), **kw)
+        kreq, _ = pandas_verdict(A.schema_of(S, **fck), df.iloc[a["requested"]].copy())
+        kkept, _ = pandas_verdict(A.schema_of(S, **fck), df.iloc[a["kept"]].copy())
         if "crash" in (k1, kreq, kkept):
             rep.count("pandas:crash")
             continue
@@ -108,7 +137,7 @@ def run_pandas(rep, cases):
         if k1 != kkept:
             rep.correspondence_break(c, f"model of the code's selection {a['kept']} gives {kkept}, implementation {k1}")
         if o["head"] == D["nrows"] and o["tail"] is None and o["sample"] is None:
-            kall, _ = pandas_verdict(A.schema_of(S), df.copy())
+            kall, _ = pandas_verdict(A.schema_of(S, **fck), df.copy())
             if kall != kreq:
                 rep.correspondence_break(c, "head=len(D) differs from no option on the positional frame")
 
@@ -204,11 +233,11 @@ def run_polars(rep, cases):
         dcases.append({"n": n, "head": o["head"], "tail": o["tail"], "samplePos": None, "keys": keys})
     ans = run_driver("C20", dcases)
 
-    def verdict(S, df, **kw):
+    def verdict(S, df, _fck=None, **kw):
         with warnings.catch_warnings():
             warnings.simplefilter("ignore")
             try:
-                out = PA.schema_of(S).validate(df, lazy=True, **kw)
+                out = PA.schema_of(S, **(_fck or {})).validate(df, lazy=True, **kw)
                 return "ok", out
             except pap.errors.SchemaErrors as e:
                 return "errors", e
@@ -233,12 +262,13 @@ def run_polars(rep, cases):
                                      region="K_C20_polarsSampleCrash")
             continue
         kw = {k: v for k, v in o.items() if k in ("head", "tail")}
-        k1, out1 = verdict(S, df, **kw)
+        fck = frame_checks_of(c, "polars")
+        k1, out1 = verdict(S, df, fck, **kw)
         if df.width == 0 or df.height != D["nrows"]:
             rep.count("polars:no-columns")
             continue
-        kreq, _ = verdict(S, df[a["requested"]] if a["requested"] else df.head(0))
-        kkept, _ = verdict(S, df[a["kept"]] if a["kept"] else df.head(0))
+        kreq, _ = verdict(S, df[a["requested"]] if a["requested"] else df.head(0), fck)
+        kkept, _ = verdict(S, df[a["kept"]] if a["kept"] else df.head(0), fck)
         if any(x.startswith("crash") for x in (k1, kreq, kkept)):
             rep.count("polars:" + k1)
             continue
